@@ -555,6 +555,17 @@ async fn replay_down(rep: &mut Report, st: &Arc<Settings>, file: &str) {
             let r: Result<(), Trouble> = (|| {
                 match names[i].as_str() {
                     "SinkWrite" => { written += 1; let data: Vec<u8> = (1..=chunks[written - 1]).map(|o| down_byte(written, o)).collect(); sim.down_write(&data)?; }
+                    "SinkWriteRefused" => {
+                        // the channel holds one chunk: the next one must be handed back whole
+                        let data: Vec<u8> = (1..=chunks[written]).map(|o| down_byte(written + 1, o)).collect();
+                        let snk = sim.sink.as_mut().ok_or_else(|| Trouble::Op("no sink".into()))?;
+                        match catch(|| snk.write(Bytes::copy_from_slice(&data))) {
+                            Err(p) => return Err(Trouble::Panic(p)),
+                            Ok(Err(e)) => return Err(Trouble::Op(format!("sink write failed: {}", e))),
+                            Ok(Ok(rest)) if rest.len() == data.len() => {}
+                            Ok(Ok(rest)) => return Err(Trouble::Op(format!("the sink took {} bytes of a chunk although a chunk is already queued: the download channel holds more than the one chunk graceful_shutdown drains", data.len() - rest.len()))),
+                        }
+                    }
                     "Cancel" => sim.sess.lock().unwrap().cancel.notify_one(),
                     "Relisten" => sim.sess.lock().unwrap().resume.notify_one(),
                     "Shutdown" => sim.stop.notify_one(),
